@@ -131,34 +131,55 @@ theorem C01_symmetric_needs_list_items_on_both_paths (c : Cfg) (h1 : c.resListIt
 
 /-! ### obligations about facts extracted from the current source (PyroModel/Gen/C01.lean) -/
 
-/-- The constants, hook chains and dispatch tables the model is written against are the ones in
-    the source now. -/
+/-- what the model's `dumps` builds for a value msgpack has no native form for: (ext code, data) -/
+def extOf (v : Val) : Option (Nat × List Nat) :=
+  match enc .msgpack true v with
+  | .ok (.ext code data) => some (code, data.map UInt8.toNat)
+  | _ => none
+
+/-- The behaviour the model is written against is the behaviour of the module now (every fact below is
+    obtained by calling the real functions at extraction time): hook placement is symmetric, the ext values
+    `MsgpackSerializer.default` builds for complex(1.5, 2.0), 2**70 and date(2020, 1, 2) are byte for byte the
+    ones the model's `enc` builds, and the probe tables of the hooks, of `recreate_classes`, `class_to_dict`,
+    `dict_to_class` and `convert_obj_into_marshallable` are the ones the model's case analysis follows. -/
 theorem C01_gen_facts :
     srcCfg.good = true ∧
     Pyro.Gen.C01.serializerIds = [1, 2, 3, 4] ∧
-    Pyro.Gen.C01.marshalableTypes = ["str", "int", "float", "type(None)", "bool", "complex", "bytes", "bytearray",
-      "tuple", "set", "frozenset", "list", "dict"] ∧
-    Pyro.Gen.C01.marshalClassToDict = ["uuid.UUID"] ∧
-    Pyro.Gen.C01.recreateDispatch = ["set", "list", "tuple", "dict"] ∧
+    Pyro.Gen.C01.extProbe = [extOf (.complex 0x3FF8000000000000 0x4000000000000000), extOf bigInt,
+      extOf (.date 737426)].filterMap id ∧
+    Pyro.Gen.C01.extProbe.length = 3 ∧
+    Pyro.Gen.C01.extDatetimeCode = extDatetime ∧
+    Pyro.Gen.C01.extHookTable = [("complex", "complex"), ("long", "int"), ("datetime", "datetime"), ("date", "date"),
+      ("unknown-code", "SerializeError")] ∧
+    Pyro.Gen.C01.msgpackBinStr = ["bytes", "str"] ∧
+    Pyro.Gen.C01.marshalConvTable = [("str", "same"), ("int", "same"), ("float", "same"), ("NoneType", "same"),
+      ("bool", "same"), ("complex", "same"), ("bytes", "same"), ("bytearray", "same"), ("tuple", "same"), ("set", "same"),
+      ("frozenset", "same"), ("list", "same"), ("dict", "same"),
+      ("uuid.UUID", "str:00000000-0000-0000-0000-000000000005"), ("decimal.Decimal", "SerializeError"),
+      ("datetime.date", "SerializeError"), ("object", "dict:__class__,x")] ∧
+    Pyro.Gen.C01.recreateDescends = ["set", "list", "tuple", "dict"] ∧
+    Pyro.Gen.C01.recreateNotDescended = ["frozenset", "OrderedDict", "namedtuple", "bytearray"] ∧
     Pyro.Gen.C01.classKeyLiterals = ["__class__"] ∧
     Pyro.Gen.C01.classKey = [95, 95, 99, 108, 97, 115, 115, 95, 95] ∧
+    Pyro.Gen.C01.refusesClassDict = [("serpent", [true, true, true]), ("marshal", [true, true, true]),
+      ("json", [true, true, true]), ("msgpack", [true, true, true])] ∧
     Pyro.Gen.C01.classToDictRefused = ["set", "dict", "tuple", "list"] ∧
-    Pyro.Gen.C01.dictToClassDunder = ["__"] ∧
-    Pyro.Gen.C01.serpentDictToClassEq = ["float"] ∧
+    Pyro.Gen.C01.dictToClassNames = [("a__b", "SecurityError"), ("__a", "SecurityError"), ("a__", "SecurityError"),
+      ("a_b", "SerializeError"), ("a._b", "SerializeError"), ("x.Y", "SerializeError")] ∧
+    Pyro.Gen.C01.serpentDictToClassValues = ["float:float"] ∧
     Pyro.Gen.C01.jsonCallKeys = ["object", "method", "params", "kwargs"] ∧
-    Pyro.Gen.C01.jsonDefaultChain = ["set", "uuid.UUID", "(datetime.datetime, datetime.date)", "decimal.Decimal",
-      "array.array"] ∧
-    Pyro.Gen.C01.msgpackDefaultChain = ["set", "uuid.UUID", "complex", "datetime.datetime", "datetime.date",
-      "decimal.Decimal", "numbers.Number", "array.array"] ∧
-    Pyro.Gen.C01.extDefault = [("complex", extComplex, "dd"), ("datetime.datetime", extDatetime, "d"),
-      ("datetime.date", extDate, "l"), ("numbers.Number", extLong, "")] ∧
-    Pyro.Gen.C01.extHook = [(extComplex, "dd"), (extLong, ""), (extDatetime, "d"), (extDate, "l")] ∧
-    Pyro.Gen.C01.msgpackUnpackOther = [["raw=False"], ["raw=False"]] ∧
-    Pyro.Gen.C01.msgpackPackKw = [["default=self.default", "use_bin_type=True"], ["default=self.default", "use_bin_type=True"]] ∧
-    Pyro.Gen.C01.serpentDumpsKw = [["bytes_repr=config.SERPENT_BYTES_REPR", "module_in_classname=True"],
-      ["bytes_repr=config.SERPENT_BYTES_REPR", "module_in_classname=True"]] ∧
-    Pyro.Gen.C01.serpentBytesRepr = false ∧
-    Pyro.Gen.C01.recreatedInLoadsCall.take 3 = [["vargs", "kwargs"], ["vargs", "kwargs"], ["vargs", "kwargs"]] ∧
+    Pyro.Gen.C01.jsonDefaultTable = [("set", "tuple"), ("frozenset", "SerializeError"),
+      ("uuid.UUID", "str:00000000-0000-0000-0000-000000000005"), ("datetime", "str:2020-01-02T03:04:05"),
+      ("date", "str:2020-01-02"), ("Decimal", "str:1.50"), ("array", "list"), ("bytes", "SerializeError"),
+      ("complex", "SerializeError"), ("bigint", "SerializeError"), ("object", "dict:__class__,x")] ∧
+    Pyro.Gen.C01.msgpackDefaultTable = [("set", "tuple"), ("frozenset", "SerializeError"),
+      ("uuid.UUID", "str:00000000-0000-0000-0000-000000000005"), ("datetime", "ext:50:len8"),
+      ("date", "ext:51:92400b0000000000"), ("Decimal", "str:1.50"), ("array", "list"), ("bytes", "SerializeError"),
+      ("complex", "ext:48:000000000000f83f0000000000000040"),
+      ("bigint", "ext:49:31313830353931363230373137343131333033343234"), ("object", "dict:__class__,x"),
+      ("datetime+tz", "SerializeError")] ∧
+    Pyro.Gen.C01.serpentModuleInClassname = true ∧ Pyro.Gen.C01.serpentBase64Bytes = true ∧
+    dateIso 737426 = [50, 48, 50, 48, 45, 48, 49, 45, 48, 50] ∧
     Pyro.Gen.C06.lenComparisons = ["Gt 100", "NotEq 4"] := by decide
 
 /-! ### non-vacuity -/
